@@ -252,6 +252,7 @@ def step (d : DState) (tok : List String) : DState × List String :=
            "own kind=shared same_owner=1 use_after=1", arg "cshared@1", "own kind=cshared same_owner=1 use_after=1",
            arg "vsptr", "own kind=vsptr same_owner=1 use_after=1", arg "cvsptr", "own kind=cvsptr same_owner=1",
            arg "vsptr<-lvalue", arg "vsptr<-const", arg "vsptr<-rvalue", arg "vsptr<-derived",
+           arg "vsptr-const<-base", arg "vsptr-const<-exact", arg "vsptr-const<-copy",
            "arg kind=make_virtual_shared same=1 get=1",
            arg "vptr", arg "vptr@1", arg "vptr-copy", arg "vptr-final->base", arg "vptr-exact->base",
            "get kind=vptr get=1 deref=1 arrow=1",
@@ -262,7 +263,7 @@ def step (d : DState) (tok : List String) : DState × List String :=
            s!"nv cat=rref same=1 copies={copiesOf .rref .xvalue} moves=0 intact=1",
            "nv cat=moveonly got=1 moves_le1=1",
            "ret cat=value got=1 copies=0 moves=0",
-           "ret cat=ref same=1"])
+           "ret cat=ref same=1", "ret cat=derived-pointer adjusted=1 value=1"])
   | "thunk-expect-fork" :: _ =>
     -- a definition on an intermediate class with a virtual base, reached by objects of several most
     -- derived classes in turn: each call must hand the definition the caller's own object
